@@ -179,12 +179,12 @@ Lemma hash_prefixes_match :
 Proof. vm_compute. reflexivity. Qed.
 
 (* ---- the code before the repairs ---- *)
-(* 4a138e3: a CSR with an RSA-PSS algorithm carried the PSS identifier over a PKCS #1 v1.5 signature *)
+(* dab9c03: a CSR with an RSA-PSS algorithm carried the PSS identifier over a PKCS #1 v1.5 signature *)
 Lemma csr_pss_unfixed_disagrees :
   agree_cell (fun _ => csr_pss_unfixed x509_details) x509_details ocsp_details ACSR KRSA 13 = false.
 Proof. vm_compute. reflexivity. Qed.
 
-(* 9dbfbd4: the unfixed decision accepted an RSA PKCS #1 v1.5 / SHA-256 signature under ECDSAWithSHA256 *)
+(* 84040cf: the unfixed decision accepted an RSA PKCS #1 v1.5 / SHA-256 signature under ECDSAWithSHA256 *)
 Lemma check_sig_unfixed_accepts_mismatch :
   check_sig_unfixed N (N * N) (option sigdesc) (keytype * N) fst (fun h m => (h, m)) ideal_prim
                     10 (KRSA, 1) 7 (Some (PadPKCS1, 1, 5, 7)) = ROk /\
